@@ -369,7 +369,7 @@ def c10(run):
     run.validate("regconc", t, "Trace_regconc", label="(V) free-running lookups / registrations, hook events in sequence order", chunk=3000, group_on="reset")
     t = run.record("regconc", "mix", n=T(run, 9, 150))
     run.validate("crypto", t, "Trace_crypto", label="(V) concurrent MIC / encryption / decrypt-then-decode on distinct values vs the sequential specification", chunk=T(run, 60, 200), prefix="C0")
-    run.require_kinds("own/own", "own/reuse", "own/bandiso", "regconc/hook", "crypto/setmic", "crypto/method")
+    run.require_kinds("own/own", "own/reuse", "own/bandiso", "regconc/hook", "crypto/setmic|crypto/crash", "crypto/method|crypto/crash")
     run.rc = run.finish(assumptions=["registry hooks (build tag verif) observe the lock state with TryLock/TryRLock probes: exact under gated replay, one-sided in free-running recordings",
                                      "data races on memory that no hook observes and that change no result are not decidable by trace validation (DESIGN sec. 4); the Go race detector is not on the verdict path",
                                      "tracked buffers are observed over their full capacity"])
